@@ -249,7 +249,7 @@ func runProc(raw json.RawMessage) (any, error) {
 	es := actor.VerifEventStream(e)
 	target := actor.NewPID(e.Address(), "t/a")
 	quiesce := func() bool {
-		deadline := time.Now().Add(4 * time.Second)
+		deadline := time.Now().Add(20 * time.Second)
 		stable := 0
 		for time.Now().Before(deadline) {
 			if actor.VerifIdle(e, target) && actor.VerifIdle(e, es) && actor.VerifIdle(e, mon) {
